@@ -7,6 +7,7 @@ conditions under edits applied to either side afterwards.
 from __future__ import annotations
 
 import copy
+import inspect
 import itertools
 import pickle
 
@@ -44,7 +45,8 @@ MINIMUMS = {
 
 FNS = [kinds.node, kinds.node2, kinds.posnode, kinds.two, kinds.three, kinds.Base, kinds.Mid,
        kinds.target3, kinds.PosInit, kinds.tagged_fn, kinds.tagged_pos_fn, kinds.DCTagged,
-       sigs.g_a1_b2_va_k_vk, sigs.g_ab_c_va, sigs.g_abc_d_va_vk]
+       sigs.g_a1_b2_va_k_vk, sigs.g_ab_c_va, sigs.g_abc_d_va_vk,
+       kinds.iddef, kinds.iddef_pos, kinds.mutdef]     # defaults that are identity-bearing objects
 LEAVES = [0, 1, -7, 2**70, 1.5, 'a', 'name with space', None, True, (1, 2), (), b'bytes',
           kinds.Color.RED, kinds.two, kinds.Base, 3 + 4j]
 KINDS = ['deepcopy', 'pickle', 'deepcopy_with', 'copy', 'copy_with', 'cast',
@@ -292,6 +294,35 @@ def run_case(rng, acc):
       acc.violation(f'{kind}:returns-same-object', 'the copy is the original object', witness())
       continue
     if deep:
+      # a deep copy reports THE callable's default objects for unset parameters (never copies)
+      bad_default = None
+      for bb in C.identity_objects(b, include_internals=False).get('buildable', {}).values():
+        try:
+          params = list(inspect.signature(bb.__fn_or_cls__).parameters.values())
+        except (TypeError, ValueError):
+          continue
+        npos = sum(p.kind in (p.POSITIONAL_ONLY, p.POSITIONAL_OR_KEYWORD) for p in params)
+        view = None
+        for i, p in enumerate(params):
+          if p.default is p.empty or C.is_value(p.default) or type(p.default).__name__ == '_HAS_DEFAULT_FACTORY_CLASS':
+            continue
+          key = i if p.kind == p.POSITIONAL_ONLY else p.name
+          if key in bb.__arguments__ or p.kind in (p.VAR_POSITIONAL, p.VAR_KEYWORD):
+            continue
+          acc.obs('default_identity_checked')
+          try:
+            if i < npos:
+              view = list(bb[:]) if view is None else view
+              if i < len(view) and view[i] is not p.default:
+                bad_default = (p.name, 'positional view')
+            if p.kind != p.POSITIONAL_ONLY and getattr(bb, p.name) is not p.default:
+              bad_default = (p.name, 'attribute')
+          except Exception:  # pylint: disable=broad-except
+            pass
+      if bad_default:
+        acc.violation(f'{kind}:copy-reports-a-copy-of-the-default-object',
+                      f'parameter {bad_default[0]!r} ({bad_default[1]}): the deep copy reports an object '
+                      'that is not the callable\'s default', witness())
       if cb != ca:
         acc.violation(f'{kind}:copy-differs', 'canonical form (callables, arguments, tags, sharing) '
                       'of the deep copy differs from the original', witness())
